@@ -358,6 +358,10 @@ class C01(C.Check):
         """The property on the implementation against the NumPy reference; None if it holds."""
         e = o["expr"]
         if "build_error" in o:
+            # inverting a singular operand (e.g. a zero scaling) has no matrix meaning: NIFTy may
+            # raise ZeroDivisionError there; everything else must build
+            if ref_matrix(w, e, leafmats) is None and "ZeroDivisionError" in o["build_error"]:
+                return None
             return "building the expression raised " + o["build_error"]
         cap = o["cap"]
         adv = adv_rule(w, e, leafcaps)
